@@ -147,6 +147,43 @@ def positive_counter_edges(b):
     return edges, counter
 
 
+def lazily_opened_writer(hb, commits):
+    """`let mut writer: Option<Writer> = None; .. if data.is_empty() { continue } .. writer.insert(store.cas_writer().await?) ..
+    match writer { Some(w) => Some(w.commit()), None => None }`: no bytes, no writer, no commit, no hash.  Returns a description
+    when (1) every writer is opened behind the 'chunk is not empty' edge of a test on the data and (2) every commit lies behind the
+    Some edge of a test on an `Option<Writer>` local; else None."""
+    opens = [c for c in hb.calls() if c.bb in hb.live_blocks() and c.fn in ("xs::store::Store::cas_writer", "xs::store::Store::cas_writer_sync")]
+    if not opens or not commits:
+        return None
+    nonempty = []
+    for bb, si in hb.switches():
+        if si["kind"] != "bool":
+            continue
+        cnd = strip(si["cond"])
+        if cnd[0] == "call" and cnd[1].fn.endswith("::is_empty") and any(y[0] == "call" and y[1].fn.endswith("::into_data") for y in walk(cnd)):
+            nonempty += q.edge_triples(hb, bb, lambda m: m is False)
+        else:
+            cm = q.comparison(si["cond"])
+            if cm and any(y[0] == "call" and y[1].fn.endswith("::len") for x in (cm[1], cm[2]) for y in walk(x)) and q.const_int(cm[2]) == 0 and cm[0] in ("gt", "ne", "eq", "le"):
+                nonempty += q.edge_triples(hb, bb, lambda m, rel=cm[0]: isinstance(m, bool) and q.rel_on_edge(rel, m) in ("gt", "ne"))
+    if not nonempty or not all(q.dominated(hb, c.bb, via_edges=nonempty) for c in opens):
+        return None
+    some = []
+    for bb, si in hb.switches():
+        if si["kind"] == "variant" and "Some" in [m for (t, lab, m) in si["edges"] if isinstance(m, str)]:
+            rl = None
+            t = hb.blocks[bb]["term"]
+            # the switched-on place: a local of type Option<cacache::Writer>
+            for y in walk(si["cond"]):
+                pass
+            d = hb._single_def_rv((t["d"].get("move") or t["d"].get("copy"))["l"]) if (t["d"].get("move") or t["d"].get("copy")) else None
+            if d and "discr" in d and "cacache::put::Writer" in hb.local_tystr(d["discr"]["l"]) and hb.local_tystr(d["discr"]["l"]).startswith("core::option::Option<"):
+                some += q.edge_triples(hb, bb, lambda m: m == "Some")
+    if not some or not all(q.dominated(hb, c.bb, via_edges=some) for c in commits):
+        return None
+    return "%d open site(s) behind a non-empty test, %d commit(s) behind `Some(writer)`" % (len(opens), len(commits))
+
+
 def r2(run):
     # every place in the HTTP layer that commits a CAS writer (directly in a handler or in a shared body-to-CAS helper)
     bodies = []
@@ -159,6 +196,12 @@ def r2(run):
         fn = run.facts.enclosing_fn(hb)
         commits = q.live_calls(hb, "cacache::put::Writer::commit")
         edges, counter = positive_counter_edges(hb)
+        lazy = lazily_opened_writer(hb, commits) if not (edges and all(q.dominated(hb, c.bb, via_edges=edges) for c in commits)) else None
+        if lazy:
+            for c in commits:
+                run.ob("%s|hash-only-with-body" % fn, True, c.sp,
+                       "the CAS writer is opened only for a non-empty chunk and committed only if it was opened (%s) in %s" % (lazy, fn), reason="empty-body-gets-hash")
+            continue
         for c in commits:
             run.ob("%s|hash-only-with-body" % fn, bool(edges) and q.dominated(hb, c.bb, via_edges=edges), c.sp,
                    "the CAS writer is committed (and a hash produced) only on a `bytes_written > 0` edge in %s" % fn, reason="empty-body-gets-hash")
